@@ -60,3 +60,8 @@ def single_bool_key(case):
 
 def c12_str_or_dt_keys(case):
     return case.get("keykind", "").split("_")[0] in ("str", "dt")
+
+
+def c19_cached_accessor(case):
+    return case.get("op") in ("groups", "key_count", "accessor:groups", "accessor:key_count",
+                              "accessor:ikey_count", "accessor:group_ikey")
